@@ -96,7 +96,7 @@ struct Run {
             real_u32 e = powmod((real_u32) ((real_u64) a * Rinv % p), (p - 1) / 2, p);
             got = (real_u32) (l + 1); exp = (e == 0) ? 1 : (e == 1 ? 2 : 0);
         }
-        else if (!strcmp(op, "set_get")) {
+        else if (!strcmp(op, "set_get") || !strcmp(op, "set")) {
             BigInt<16> i, o; setv(i, a);
             z.set(i); z.get(o); got = val(o); exp = a % p;
             if (val(z.val) != (real_u32) ((real_u64) a * R % p)) { if (report) fail("set", p, a, b, val(z.val), (real_u32) ((real_u64) a * R % p)); return false; }
@@ -155,12 +155,20 @@ struct Run {
     }
 };
 
+static void bigint_row(real_u32 a, long only_b, unsigned long long& n);
+
 static void bigint_sweep(bool thorough, int part, int nparts) {
     /* raw BigInt<16>: add/subtract with carry/borrow, multiply 16x16->32, square, shifts: all inputs */
     unsigned long long n = 0;
     real_u32 astep = thorough ? 1 : 7;       /* quick: every 7th row of a (all b); thorough: all pairs */
-    for (real_u32 a = part * astep; a < 65536; a += nparts * astep) {
-        for (real_u32 b = 0; b < 65536; b++) {
+    for (real_u32 a = part * astep; a < 65536; a += nparts * astep) bigint_row(a, -1, n);
+    stat("bigint16", 0, n);
+}
+
+/* one row of the raw BigInt<16> space: a against every b (only_b < 0) or against one b (replay) */
+static void bigint_row(real_u32 a, long only_b, unsigned long long& n) {
+    {
+        for (real_u32 b = (only_b < 0 ? 0 : (real_u32) only_b); b < (only_b < 0 ? 65536u : (real_u32) only_b + 1); b++) {
             BigInt<16> x, y, z; setv(x, a); setv(y, b);
             bool c = z.add(x, y);
             if (val(z) != ((a + b) & 0xFFFF) || c != ((a + b) >> 16 != 0)) fail("bigint_add", 0, a, b, val(z) | (c << 16), a + b);
@@ -185,7 +193,6 @@ static void bigint_sweep(bool thorough, int part, int nparts) {
         }
         n += 35;
     }
-    stat("bigint16", 0, n);
 }
 
 int main(int argc, char** argv) {
@@ -196,7 +203,13 @@ int main(int argc, char** argv) {
         else if (p == 8191u) ok = Run<FB>().one(argv[2], a, b, true);
         else if (p == 29683u) ok = Run<FC>().one(argv[2], a, b, true);
         else if (p == 32749u) ok = Run<FD>().one(argv[2], a, b, true);
-        else if (p == 0) { printf("bigint16 replay: rerun the sweep\n"); }
+        else if (p == 0) {
+            /* raw BigInt<16> case: re-run the row of a (for the binary operations against the recorded b only) */
+            unsigned long long n = 0;
+            bool binary = !strcmp(argv[2], "bigint_add") || !strcmp(argv[2], "bigint_subtract") || !strcmp(argv[2], "bigint_multiply");
+            bigint_row(a, binary ? (long) b : 0, n);
+            ok = nfail_total == 0;
+        }
         return ok ? 0 : 1;
     }
     bool thorough = argc >= 2 && !strcmp(argv[1], "thorough");
